@@ -1044,6 +1044,12 @@ def _arith(name, label, args, W, generics=None):
             b = PRIM_BITS[ty]
             hi_ = (1 << (b - 1)) - 1 if ty.startswith("i") else (1 << b) - 1
             return ("Some", PI(ty, args[0].v)) if args[0].v <= hi_ else ("None",)
+        if adt in SIGNED and mm and "ToPrimitive" in label and len(args) == 1:
+            # the signed export loops (to_iN of a signed bnum integer): Some exactly when the value is representable
+            ty = mm.group(1)
+            b = PRIM_BITS[ty]
+            lo_, hi_ = (-(1 << (b - 1)), (1 << (b - 1)) - 1) if ty.startswith("i") else (0, (1 << b) - 1)
+            return ("Some", PI(ty, args[0].v)) if lo_ <= args[0].v <= hi_ else ("None",)
         return OPAQUE
     w = W.bits_of(args[0])
     if args[0].n and name not in ("leading_zeros", "leading_ones", "bits", "trailing_zeros", "count_ones", "count_zeros"):
